@@ -3,6 +3,7 @@ import Driver.Modelled
 import Model.Audit
 import Model.PolicyObj
 import Model.Store
+import Model.Backends
 import Model.Enfold
 import Model.CachedGuard
 import Model.Migration
@@ -191,6 +192,26 @@ def showOut : Out → String
   | .pol none => "pol -" | .pol (some p) => "pol " ++ toString p
   | .pols l => "pols " ++ showSt l
 
+open Vakt.Store Vakt.Backends in
+def showCall : Call → String
+  | .dictIn => "in" | .dictSetItem => "setitem" | .dictDelItem => "delitem" | .dictGetItem => "get" | .dictValues => "values"
+  | .hsetnx => "hsetnx" | .hget => "hget" | .hgetall => "hgetall" | .hdel => "hdel" | .script => "script"
+  | .insertOne => "insert_one" | .findOne => "find_one" | .find => "find" | .updateOne => "update_one"
+  | .deleteOne => "delete_one" | .sessAdd => "add" | .sessGet => "get" | .sessQuery => "query" | .sessDelete => "delete"
+  | .commit => "commit" | .rollback => "rollback" | .notify => "notify"
+
+open Vakt.Store Vakt.Backends in
+/-- run a history through a concrete storage model: every operation's output and the client calls it makes -/
+def runBackend {σ : Type} (stepC : σ → Op → σ × Out × List Call) : σ → List Op → σ × List String
+  | s, [] => (s, [])
+  | s, op :: rest =>
+    let r := stepC s op
+    let t := runBackend stepC r.1 rest
+    (t.1, (showOut r.2.1 ++ " @" ++ ",".intercalate (r.2.2.map showCall)) :: t.2)
+
+/-- the serializer of the protocol: a policy's content id `n` is stored as the one-byte string `[n + 1]` -/
+def protoSer : Vakt.Backends.Ser := ⟨fun p => some [p + 1], fun b => b.headD 1 - 1⟩
+
 open Vakt.Store Vakt.Enfold in
 def pEOp : P EOp
   | "pop" :: b :: ts => do let b ← b.toNat?; pure (.populate b, ts)
@@ -331,6 +352,30 @@ def handle (toks : List String) : Option String :=
     let ops ← full (pCounted pStoreOp ts)
     let r := Vakt.Store.run ⟨sorted, eager⟩ [] ops
     pure (" | ".intercalate (r.2.map showOut) ++ " || " ++ showSt r.1)
+  | "BACKEND" :: kind :: ts => do
+    let ops ← full (pCounted pStoreOp ts)
+    let fin (st : Vakt.Store.St) (outs : List String) (extra : String) : String :=
+      " | ".intercalate outs ++ " || " ++ showSt st ++ extra
+    match kind with
+    | "memory" => let r := runBackend Vakt.Backends.memStep [] ops; pure (fin r.1 r.2 "")
+    | "redis" => let r := runBackend (Vakt.Backends.redisStep protoSer) [] ops
+                 pure (fin (Vakt.Backends.feed protoSer r.1) r.2 "")
+    | "mongo" => let r := runBackend Vakt.Backends.mongoStep [] ops; pure (fin r.1 r.2 "")
+    | "sql" => let r := runBackend Vakt.Backends.sqlStep (Vakt.SqlSession.fresh []) ops
+               pure (fin r.1.view r.2 (" || " ++ showSt r.1.committed ++ " " ++ showB r.1.dirty))
+    | "obs-memory" =>
+      let r := runBackend (Vakt.Backends.obsStep Vakt.Backends.memStep) ⟨[], 0⟩ ops
+      pure (fin r.1.inner r.2 (" || " ++ toString r.1.notified))
+    | "obs-redis" =>
+      let r := runBackend (Vakt.Backends.obsStep (Vakt.Backends.redisStep protoSer)) ⟨[], 0⟩ ops
+      pure (fin (Vakt.Backends.feed protoSer r.1.inner) r.2 (" || " ++ toString r.1.notified))
+    | "obs-mongo" =>
+      let r := runBackend (Vakt.Backends.obsStep Vakt.Backends.mongoStep) ⟨[], 0⟩ ops
+      pure (fin r.1.inner r.2 (" || " ++ toString r.1.notified))
+    | "obs-sql" =>
+      let r := runBackend (Vakt.Backends.obsStep Vakt.Backends.sqlStep) ⟨Vakt.SqlSession.fresh [], 0⟩ ops
+      pure (fin r.1.inner.view r.2 (" || " ++ toString r.1.notified))
+    | _ => none
   | "ENFOLD" :: ts => do
     let (sorted, ts) ← pBool ts
     let (eager, ts) ← pBool ts
